@@ -1,5 +1,6 @@
 import collections
 import copy
+import copyreg
 
 from types import CodeType
 from typing import Any, Dict, List, Optional, Mapping, Iterator
@@ -33,6 +34,11 @@ class FrozenContext(collections.abc.Mapping):
 
     def __setstate__(self, state):
         self.__frozencontext = state
+
+    def __reduce__(self):
+        # Give the state explicitly: an empty (falsy) state is dropped by pickle protocols 0 and 1,
+        # leaving the restored object without its underlying dict.
+        return copyreg.__newobj__, (type(self),), self.__getstate__()
 
     def __getitem__(self, key):
         return self.__frozencontext[key]
